@@ -102,7 +102,7 @@ prop("C12", "proof", "rank-neighbour maximality (sandwich lemma) proved in Lean;
 prop("C13", "proof", "Reset clears every search structure in the model (tied by correspondence on post-Reset behaviour and twin comparison with a fresh parser); no shared mutable state is a decide-d fact over the regenerated package variables",
      "Lean 4 facts over regenerated source data + twin-parser differential runs",
      [S("p-reset", 300, 5000, ["p.twin.fresh", "p.twin.blocks"]), S("p-reset-stale", 300, 5000, ["p.twin.fresh", "p.twin.blocks"]),
-      S("p-reset-sa", 60, 1200, ["p.twin.fresh", "p.twin.blocks"]), S("p-reset-bigtable", 4, 100, ["p.twin.fresh", "p.twin.blocks"]), S("p-large", 4, 80, ["p.parse.matches", "p.match.offset>=64K"], hang="120s")],
+      S("p-reset-sa", 60, 1200, ["p.twin.fresh", "p.twin.blocks"]), S("p-reset-bigtable", 60, 1500, ["p.twin.fresh", "p.twin.blocks"]), S("p-large", 4, 80, ["p.parse.matches", "p.match.offset>=64K"], hang="120s")],
      "schedules clause reduced to the absence of package-level mutable state (syntactic criteria of the extractor)", GEN_RULE, "§8 C13")
 prop("C14", "proof", "Parse(nil) accounting and drain theorem in Lean; generator with raised Parse(nil) weight; later blocks checked against a decoder that got the skipped bytes verbatim",
      "Lean 4 proof + differential correspondence",
